@@ -66,6 +66,16 @@ func (f *faultReader) Seek(off int64, whence int) (int64, error) {
 	return int64(f.pos), nil
 }
 
+// the writers again with their options set (an option may select another output path inside the writer)
+var c18OptionWriters = []namedWriter{
+	{"ttml (no indentation)", func(s astisub.Subtitles, w io.Writer) error {
+		return s.WriteToTTML(w, astisub.WriteToTTMLWithIndentOption(""))
+	}},
+	{"ttml (tab indentation)", func(s astisub.Subtitles, w io.Writer) error {
+		return s.WriteToTTML(w, astisub.WriteToTTMLWithIndentOption("\t"))
+	}},
+}
+
 // faultWriter accepts k bytes and then fails, either after a partial write or refusing the whole chunk
 type faultWriter struct {
 	k       int
@@ -176,7 +186,7 @@ func c18ReadFaults(c *fw.Ctx, d corpusDoc, sample int) *fw.Outcome {
 func c18WriteFaults(c *fw.Ctx, seed uint64) *fw.Outcome {
 	s := richSubtitles(fw.NewRand(seed))
 	key := fw.Mix(seed, 0xc18f)
-	for _, w := range allWriters {
+	for _, w := range append(append([]namedWriter(nil), allWriters...), c18OptionWriters...) {
 		ref, rerr, p := writeBytes(w, s)
 		if p != "" || rerr != nil {
 			continue // C08 / C19 territory
